@@ -30,6 +30,12 @@ type NamedMap map[string]string
 type NamedIntMap map[string]int
 type NamedIfaceMap map[string]interface{}
 
+// NamedAny is a named empty interface type (kind Interface, not identical to
+// interface{}).
+type NamedAny interface{}
+type NamedAnys []NamedAny
+type NamedAnyMap map[string]NamedAny
+
 type Plain struct {
 	ID   int
 	Name string `struct:"name"`
@@ -237,6 +243,7 @@ var Supported = []reflect.Type{
 	reflect.TypeOf(NamedMap(nil)), reflect.TypeOf(NamedIntMap(nil)), reflect.TypeOf(NamedIfaceMap(nil)),
 	reflect.TypeOf(Plain{}), reflect.TypeOf(Base{}), reflect.TypeOf(EmbedInline{}), reflect.TypeOf(EmbedNamed{}),
 	reflect.TypeOf(WithZeroers{}),
+	reflect.TypeOf((*NamedAny)(nil)).Elem(), reflect.TypeOf(NamedAnys(nil)), reflect.TypeOf(NamedAnyMap(nil)),
 }
 
 // FoldOnly lists zoo types that fold (C09, C12) but whose custom Fold output
